@@ -36,7 +36,13 @@ fn c14_case(ctx: &Ctx, st0: &Setup, r: &mut Rng, nsteps: usize, all_init: bool) 
         let (os, env, obs_s) = ms.step(kbl, dsl);
         envs.push(env);
         match os {
-            Outcome::Panic => return,
+            Outcome::Panic => {
+                let (ol, _, _) = ml.step(kbl, dsl);
+                if ol != Outcome::Panic {
+                    ctx.fail("C14", "strict_step_panics", format!("step {k}: the step panics under strict mode ({}) but gives {ol:?} without it", crate::LAST_PANIC.with(|p| p.borrow().clone())), replay_of(&st, &mut build(&st), &envs));
+                }
+                return;
+            }
             Outcome::Err(c) if c >= 6 => {
                 if all_init {
                     ctx.fail("C14", "strict_error_on_initialized_machine", format!("fully initialised machine: strict step {k} reports strict error code {c}"), replay_of(&st, &mut build(&st), &envs));
@@ -104,6 +110,8 @@ fn props_case(ctx: &Ctx, st: &Setup, r: &mut Rng, nsteps: usize) {
         let user = !m.sim.psr().privileged();
         let checks = !st.ignore_priv;
         let depth0 = m.sim.frame_stack.len();
+        let r6_before = m.sim.reg_file[reg(6)].get();
+        let ssp_before = m.sim.verif_saved_sp().verif_parts();
         let instrs0 = m.sim.instructions_run;
         let fetched = if pc < 0xFE00 { SimInstr::decode(m.sim.mem[pc].get()).ok() } else { None };
         let reference = if !st.strict { reference_accesses(&m, pc) } else { None };
@@ -122,7 +130,9 @@ fn props_case(ctx: &Ctx, st: &Setup, r: &mut Rng, nsteps: usize) {
 
         // ---- C09 ----
         if user && checks {
-            let entered = now_priv;
+            // an entry into a trap / exception / interrupt routine switches stacks; it normally ends in supervisor
+            // mode (unless a push lands on a memory-mapped PSR, which is still an entry, not a user access)
+            let entered = now_priv || m.sim.verif_saved_sp().verif_parts() != ssp_before;
             if !entered {
                 for (a, _) in &accessed {
                     if !in_user(*a) {
@@ -138,7 +148,7 @@ fn props_case(ctx: &Ctx, st: &Setup, r: &mut Rng, nsteps: usize) {
                     }
                 }
             }
-            if matches!(out, Outcome::Err(2) | Outcome::Err(3)) {
+            if matches!(out, Outcome::Err(2) | Outcome::Err(3)) && !entered {
                 // a denied access leaves memory and device state unchanged
                 let kb1: Option<Vec<u8>> = m.kb.as_ref().map(|b| b.read().unwrap().iter().copied().collect());
                 let ds1: Option<Vec<u8>> = m.ds.as_ref().map(|b| b.read().unwrap().clone());
@@ -150,6 +160,14 @@ fn props_case(ctx: &Ctx, st: &Setup, r: &mut Rng, nsteps: usize) {
             if let Some(SimInstr::RTI) = fetched {
                 if executed {
                     ctx.fail("C09", "rti_in_user_mode", format!("step {k}: RTI at pc={pc:#06x} executed in user mode"), replay_of(st, &mut build(st), &envs));
+                }
+                // no interrupt pending here means the RTI was fetched: it must be refused before anything else happens
+                let fetched_it = accessed.iter().any(|(a, f)| *a == pc && f & 1 != 0);
+                if fetched_it && in_user(pc) && !st.real {
+                    let only_fetch = accessed.iter().all(|(a, _)| *a == pc);
+                    if out != Outcome::Err(2) || !only_fetch {
+                        ctx.fail("C09", "rti_in_user_mode", format!("step {k}: RTI at pc={pc:#06x} in user mode gave {out:?} and touched {accessed:?} (expected PrivilegeViolation and only the fetch)"), replay_of(st, &mut build(st), &envs));
+                    }
                 }
             }
         }
@@ -187,7 +205,17 @@ fn props_case(ctx: &Ctx, st: &Setup, r: &mut Rng, nsteps: usize) {
                             Some(SimInstr::JSR(_)) if executed => top.callee_addr == m.sim.pc,
                             _ => true,
                         };
-                        if top.caller_addr != pc || !type_ok || !callee_ok {
+                        // arguments of a registered stack-convention signature: the n words at R6, R6+1, ... (wrapping)
+                        if executed && matches!(fetched, Some(SimInstr::JSR(_))) {
+                            if let Some((_, PList::CC(n))) = st.sr_defns.iter().rev().find(|(a, _)| *a == top.callee_addr) {
+                                let want: Vec<(u16, u16)> = (0..*n as u16).map(|j| m.sim.mem[r6_before.wrapping_add(j)].verif_parts()).collect();
+                                let got: Vec<(u16, u16)> = top.arguments.iter().map(|w| w.verif_parts()).collect();
+                                if got != want {
+                                    ctx.fail("C27", "frame_arguments", format!("step {k} at pc={pc:#06x}: frame arguments {got:?}, expected the {n} words at R6={r6_before:#06x}..: {want:?}"), replay_of(st, &mut build(st), &envs));
+                                }
+                            }
+                        }
+                        if (fetched.is_some() || !executed) && (top.caller_addr != pc || !type_ok || !callee_ok) {
                             ctx.fail("C27", "top_frame", format!("step {k} at pc={pc:#06x}: top frame caller={:#06x} callee={:#06x} type={:?}", top.caller_addr, top.callee_addr, top.frame_type), replay_of(st, &mut build(st), &envs));
                         }
                     }
@@ -216,7 +244,7 @@ fn props_case(ctx: &Ctx, st: &Setup, r: &mut Rng, nsteps: usize) {
             }
         }
         // a denied access never happened: it must not be recorded
-        if user && checks && !now_priv {
+        if user && checks && !now_priv && m.sim.verif_saved_sp().verif_parts() == ssp_before {
             for (a, _) in &accessed {
                 if !in_user(*a) {
                     ctx.fail("C28", "denied_access_recorded", format!("step {k}: user-mode step at pc={pc:#06x} ({out:?}) recorded an access to {a:#06x}, which was denied"), replay_of(st, &mut build(st), &envs));
@@ -245,7 +273,59 @@ fn props_case(ctx: &Ctx, st: &Setup, r: &mut Rng, nsteps: usize) {
     }
 }
 
+/// C09 directed: every addressing mode of a user-mode program aimed at every boundary address
+fn c09_directed(ctx: &Ctx, r: &mut Rng) {
+    let targets: [u16; 10] = [0x0000, 0x2FFF, 0x3000, 0x3001, 0xFDFF, 0xFE00, 0xFE02, 0xFE06, 0xFFFE, 0xFFFF];
+    for &t in &targets {
+        for mode in 0..10u8 {
+            for real in [false, true] {
+                for strict in [false, true] {
+                    let mut st = Setup::plain(r.u16());
+                    st.real = real; st.strict = strict;
+                    st.psr = 0x8002; st.pc = 0x3100;
+                    for k in 0..8 { st.regs[k] = (r.u16(), 0xFFFF); }
+                    st.regs[1] = (t, 0xFFFF);
+                    st.regs[6] = (0x4000, 0xFFFF);
+                    st.kb = Some((vec![b'k', b'q'], false));
+                    st.ds = Some(vec![]);
+                    // pointer word for the indirect modes
+                    st.overrides.push((0x3180, (t, 0xFFFF)));
+                    let w: u16 = match mode {
+                        0 => 0x6040,                  // LDR R0,R1,#0
+                        1 => 0x7040,                  // STR R0,R1,#0
+                        2 => 0xA07F,                  // LDI R0,[x3180]
+                        3 => 0xB07F,                  // STI R0,[x3180]
+                        4 => 0xC040,                  // JMP R1
+                        5 => 0x4040,                  // JSRR R1
+                        6 => 0x8000,                  // RTI
+                        7 => 0x207F,                  // LD  R0,x3180 (plain, allowed)
+                        8 => 0x307F,                  // ST  R0,x3180 (plain, allowed)
+                        _ => 0xF0FF,                  // TRAP xFF (entry)
+                    };
+                    st.overrides.push((0x3100, (w, 0xFFFF)));
+                    st.overrides.push((0x3101, (0x1021, 0xFFFF)));
+                    // the jump target holds an instruction (only effective where we may write it)
+                    if (0x3000..0xFE00).contains(&t) { st.overrides.push((t, (0x1021, 0xFFFF))); }
+                    // LD/ST PC-relative at the upper boundary: place code right below xFE00
+                    props_case(ctx, &st, r, 3);
+                    if mode == 0 {
+                        // fall-through fetch across the upper boundary
+                        let mut st2 = st.clone();
+                        st2.pc = 0xFDFF; st2.overrides.push((0xFDFF, (0x1021, 0xFFFF)));
+                        props_case(ctx, &st2, r, 3);
+                        let mut st3 = st.clone();
+                        st3.pc = 0xFDFE; st3.overrides.push((0xFDFE, (0x3001, 0xFFFF))); // ST R0,#1 -> xFE00
+                        st3.overrides.push((0xFDFF, (0x2000, 0xFFFF)));                    // LD R0,#0 -> xFE00
+                        props_case(ctx, &st3, r, 3);
+                    }
+                }
+            }
+        }
+    }
+}
+
 pub fn run(ctx: &Ctx, _replay: Option<&str>) {
+    { let mut r = Rng::new(ctx.seed ^ 0xC09); c09_directed(ctx, &mut r); }
     let runs = ctx.n(1500, 60_000) as usize;
     let root = Rng::new(ctx.seed ^ 0x51AB);
     par_for(runs, |k| {
